@@ -1,0 +1,83 @@
+//go:build verif
+
+// Contracts for the govc verifier (/verif). Comment-only.
+
+package txauthor
+
+// ---- sums and classification counts as recursive spec functions ----
+//@ spec func sumVal(rows [Int]Int, vals [Int]Int, off Int, n Int) Int
+//@ axiom sumVal_0: forall rows [Int]Int, vals [Int]Int, off Int :: sumVal(rows, vals, off, 0) == 0
+//@ axiom sumVal_s: forall rows [Int]Int, vals [Int]Int, off Int, n Int :: {sumVal(rows, vals, off, n)}
+//@     n > 0 ==> sumVal(rows, vals, off, n) == sumVal(rows, vals, off, n-1) + select(vals, select(rows, off+n-1))
+//@ macro SUMVAL(os, n) = sumVal(select(@M(*wire.TxOut), os.base), @H(wire.TxOut.Value), os.off, n)
+
+//@ spec func sumAmt(row [Int]Int, off Int, n Int) Int
+//@ axiom sumAmt_0: forall row [Int]Int, off Int :: sumAmt(row, off, 0) == 0
+//@ axiom sumAmt_s: forall row [Int]Int, off Int, n Int :: {sumAmt(row, off, n)} n > 0 ==> sumAmt(row, off, n) == sumAmt(row, off, n-1) + select(row, off+n-1)
+//@ macro SUMAMT(vs, n) = sumAmt(select(@M(btcutil.Amount), vs.base), vs.off, n)
+
+// kind of a previous output script as the authoring loop classifies it:
+// 0 nested P2WPKH (P2SH), 1 P2WPKH, 2 P2TR, 3 anything else (P2PKH)
+//@ spec func kindOf(row [Int]Int, off Int, n Int) Int = isP2SH(row, off, n) ? 0 : (isP2WPKH(row, off, n) ? 1 : (isP2TR(row, off, n) ? 2 : 3))
+//@ spec func cntKind(k Int, rows [Int]Slice, mem [Int][Int]Int, off Int, n Int) Int
+//@ axiom cntKind_0: forall k Int, rows [Int]Slice, mem [Int][Int]Int, off Int :: cntKind(k, rows, mem, off, 0) == 0
+//@ axiom cntKind_s: forall k Int, rows [Int]Slice, mem [Int][Int]Int, off Int, n Int :: {cntKind(k, rows, mem, off, n)}
+//@     n > 0 ==> cntKind(k, rows, mem, off, n) == cntKind(k, rows, mem, off, n-1)
+//@        + (kindOf(select(mem, select(rows, off+n-1).base), select(rows, off+n-1).off, select(rows, off+n-1).len) == k ? 1 : 0)
+//@ macro CNT(k, ss, n) = cntKind(k, select(@M([]byte), ss.base), @M(uint8), ss.off, n)
+
+// the fee NewUnsignedTransaction must leave, as a function of its result
+//@ macro REQFEE(rate, scripts, outputs, chg) = feeFor(rate, estV(CNT(3, scripts, len(scripts)), CNT(2, scripts, len(scripts)),
+//@     CNT(1, scripts, len(scripts)), CNT(0, scripts, len(scripts)), len(outputs), old(SUMOUT(outputs, len(outputs))), chg))
+
+//@ func SumOutputValues(outputs) (totalOutput)
+//@   property C07
+//@   requires len: len(outputs) <= 4000
+//@   requires elems: forall i Int :: {outputs[i]} 0 <= i && i < len(outputs) ==> outputs[i] != nil && 0 <= outputs[i].Value && outputs[i].Value <= 2100000000000000
+//@   invariant 1 idx: 0 <= rangeindex + 1 && rangeindex + 1 <= len(outputs)
+//@   invariant 1 acc: totalOutput == SUMVAL(outputs, rangeindex + 1)
+//@   invariant 1 bound: 0 <= totalOutput && totalOutput <= (rangeindex + 1) * 2100000000000000
+//@   ensures sum: totalOutput == SUMVAL(outputs, len(outputs))
+//@   ensures bound: 0 <= totalOutput && totalOutput <= len(outputs) * 2100000000000000
+
+// What NewUnsignedTransaction assumes of its input source (the wallet's
+// makeInputSource is proved to satisfy it in package wallet).
+//@ func NewUnsignedTransaction@fetchInputs(target) (total, inputs, inputValues, scripts, err)
+//@   trusted
+//@   ensures lens: err == nil ==> len(inputs) == len(inputValues) && len(inputs) == len(scripts) && len(scripts) <= 100000
+//@   ensures total: err == nil ==> total == SUMAMT(inputValues, len(inputValues)) && 0 <= total && total <= 2100000000000000
+
+//@ func field ChangeSource.NewScript() (script, err)
+//@   trusted
+
+//@ func NewUnsignedTransaction(outputs, feeRatePerKb, fetchInputs, changeSource) (r, err)
+//@   property C07
+//@   requires outs: len(outputs) <= 4000
+//@   requires elems: forall i Int :: {outputs[i]} 0 <= i && i < len(outputs) ==> outputs[i] != nil && 0 <= outputs[i].Value && outputs[i].Value <= 2100000000000000 && len(outputs[i].PkScript) <= 100000
+//@   requires rate: 1000 <= feeRatePerKb && feeRatePerKb <= 2147483648
+//@   requires cs: changeSource != nil && 0 <= changeSource.ScriptSize && changeSource.ScriptSize <= 10000
+//@   invariant 1 fee: 0 <= targetFee && targetFee <= 2100000000000000
+//@   invariant 1 frame: @M(*wire.TxOut) == old(@M(*wire.TxOut)) && @H(wire.TxOut.PkScript) == old(@H(wire.TxOut.PkScript))
+//@       && @H(wire.TxOut.Value) == old(@H(wire.TxOut.Value)) && changeSource.ScriptSize == old(changeSource.ScriptSize)
+//@   invariant 2 idx: 0 <= rangeindex + 1 && rangeindex + 1 <= len(scripts)
+//@   invariant 2 c0: nested == CNT(0, scripts, rangeindex + 1)
+//@   invariant 2 c1: p2wpkh == CNT(1, scripts, rangeindex + 1)
+//@   invariant 2 c2: p2tr == CNT(2, scripts, rangeindex + 1)
+//@   invariant 2 c3: p2pkh == CNT(3, scripts, rangeindex + 1)
+//@   invariant 2 total: 0 <= nested && 0 <= p2wpkh && 0 <= p2tr && 0 <= p2pkh && nested + p2wpkh + p2tr + p2pkh == rangeindex + 1
+//@   ensures result: err == nil ==> r != nil && r.Tx != nil
+//@   ensures failure: err != nil ==> r == nil
+//@   ensures change_index: err == nil ==> r.ChangeIndex == 0 - 1 || r.ChangeIndex == len(outputs)
+//@   ensures outputs_preserved: err == nil ==> len(r.Tx.TxOut) == len(outputs) + (r.ChangeIndex >= 0 ? 1 : 0)
+//@       && (forall i Int :: 0 <= i && i < len(outputs) ==> r.Tx.TxOut[i] == old(outputs[i]))
+//@   ensures outputs_untouched: (forall i Int :: 0 <= i && i < len(outputs) ==> outputs[i] == old(outputs[i])
+//@       && outputs[i].Value == old(outputs[i].Value) && outputs[i].PkScript == old(outputs[i].PkScript))
+//@   ensures inputs_total: err == nil ==> r.TotalInput == SUMAMT(r.PrevInputValues, len(r.PrevInputValues))
+//@       && len(r.Tx.TxIn) == len(r.PrevScripts) && len(r.PrevScripts) == len(r.PrevInputValues)
+//@   ensures fee_lower: err == nil ==> r.TotalInput - old(SUMVAL(outputs, len(outputs)))
+//@       >= REQFEE(feeRatePerKb, r.PrevScripts, outputs, changeSource.ScriptSize)
+//@   ensures change_exact: err == nil && r.ChangeIndex >= 0 ==> r.Tx.TxOut[len(outputs)] != nil
+//@       && r.Tx.TxOut[len(outputs)].Value == r.TotalInput - old(SUMVAL(outputs, len(outputs))) - REQFEE(feeRatePerKb, r.PrevScripts, outputs, changeSource.ScriptSize)
+//@       && r.Tx.TxOut[len(outputs)].Value != 0
+//@       && !(scriptClass(row(r.Tx.TxOut[len(outputs)].PkScript), r.Tx.TxOut[len(outputs)].PkScript.off, r.Tx.TxOut[len(outputs)].PkScript.len) != txscript.NullDataTy
+//@            && mpIsDust(row(r.Tx.TxOut[len(outputs)].PkScript), r.Tx.TxOut[len(outputs)].PkScript.off, r.Tx.TxOut[len(outputs)].PkScript.len, r.Tx.TxOut[len(outputs)].Value, 1000))
